@@ -40,7 +40,7 @@ CONSTRUCTIVE = ("__post_init__", "add_node", "add_relation", "remove_edges", "cl
 
 def wf_table(prog: Program) -> RuleResult:
     r = RuleResult("WF-TABLE", "field classification predicates agree with the annotation grammar in every cell", floor=100)
-    typemodel.wf_table(prog, r)
+    typemodel.wf_table(prog, r, classify_only=True)
     return r
 
 
